@@ -223,6 +223,9 @@ func runC10(tier, replay string) { runCrash("C10", tier, replay) }
 // violations (C10: atomicity/readability; C09: reclamation after restart).
 func runCrash(prop, tier, replay string) {
 	level := "fault_enumeration"
+	if prop == "C09" {
+		level = "exploration"
+	}
 	r := vkit.Begin(prop, level, tier)
 	if prop == "C10" {
 		r.SetRule("for each operation kind (put, overwrite, delete, copy, ranged copy, complete, abort, transition, append, multi-delete, part replacement) on a pre-state with shared/deduplicated parts: the op is first run to completion on a copy of the pre-state to learn every hook point hit (tx commit/rollback steps, fs part-store pre/after-commit steps) and every injection opportunity (each SQL statement, each part-store call); then for EVERY (hook point, n-th hit) and EVERY opportunity k a child process runs the op on a fresh copy and SIGKILLs itself there; the parent reopens the directory and requires: every visible object fully readable with its recorded size, and the API snapshot equal to the pre-state or to the post-state. distinct = distinct (op case x crash point) pairs whose child really died there")
